@@ -59,6 +59,7 @@ fn params(id: &str, tier: Tier) -> GenParams {
             p.foreign_pct = 20;
         }
         "C07" => {
+            p.big_permille = 2;
             p.max_ops = tier.pick(30, 70);
             p.w = [45, 8, 22, 5, 10, 3];
         }
@@ -68,11 +69,13 @@ fn params(id: &str, tier: Tier) -> GenParams {
             p.foreign_pct = 20;
         }
         "C10" => {
+            p.big_permille = 3;
             p.w = [45, 3, 40, 4, 5, 1];
             p.av_latest_pct = 88;
             p.max_clients = 2;
         }
         "C11" => {
+            p.big_permille = 4;
             p.w = [42, 3, 40, 8, 5, 1];
             p.av_latest_pct = 88;
             p.max_clients = 2;
